@@ -37,6 +37,7 @@ Core Lean only.
 import Martian.Invocation
 import Martian.InvocationText
 import Martian.InvocationJson
+import Martian.InvocationSort
 import Martian.ResolverStatic
 
 namespace Martian.InvocationFork
@@ -364,14 +365,40 @@ def splitsConsistent (bs : List (Str × Arg)) : Bool :=
   | [] => true
   | s :: r => r.all (· == s)
 
+def isSplitIArg : IArg → Bool
+  | .split _ => true
+  | .plain _ => false
+
+/-- `if len(splitargs) > 0 && ast.Call.Mapping == nil { ast.Call.Mapping = new(NullExp) }` (BuildCallAst):
+a parameter is listed as left split but NO binding came out split – `resolveInputs` put the
+parameter into `mapped` with the value `nil` (its split source disagrees with the fork: a disabled /
+null producer next to another split argument) and `nil` gives a plain `null` binding.  The call is
+then printed `map call X(…)` without any `split` binding, which the grammar rejects (audit pass 3,
+A13; known finding C16-N8). -/
+def mapPlaceholder (mapped : List Str) (ibs : List (Str × IArg)) : Bool :=
+  !mapped.isEmpty && !ibs.any (fun b => isSplitIArg b.2)
+
+/-- the call statement `Ast.Format()` prints for the fork: members of every map through the Go map
+in printing order (`sortBinds`: keys sorted, last duplicate kept – raw / lazy values keep SOURCE
+order in `bs`), and `map call` for the placeholder mapping -/
+def printForkM (g : G) (decId id : Str) (mapped : List Str) (ibs : List (Str × IArg))
+    (bs : List (Str × Arg)) : Martian.Lexer.Bytes :=
+  if mapPlaceholder mapped ibs then
+    Martian.FormatCall.sMap ++ [0x20] ++ printFork g decId id (Martian.InvocationSort.sortBinds bs)
+  else printFork g decId id (Martian.InvocationSort.sortBinds bs)
+
 /-- THE SHAPES THAT COMPILE: no `split` inside a value (the grammar has `split` only directly after
-`=`), the call printable and readable back (`wfCall`: every split operand a non-empty array or a
+`=`), not the placeholder `map call` without a split binding, the call as Go prints it
+(`sortBinds`) printable and readable back (`wfCall`: every split operand a non-empty array or a
 non-empty map literal with quoted keys – not `split []`, `split {}`, `split null`, `split {a: 1}` –,
 identifiers, valid strings), and all split operands of one shape -/
-def forkCompiles (g : G) (decId id : Str) (ibs : List (Str × IArg)) : Bool :=
+def forkCompiles (g : G) (decId id : Str) (mapped : List Str) (ibs : List (Str × IArg)) : Bool :=
+  !mapPlaceholder mapped ibs &&
   match plainBinds ibs with
   | none => false
-  | some bs => wfForkText g decId id bs && splitsConsistent bs
+  | some bs =>
+    wfForkText g decId id (Martian.InvocationSort.sortBinds bs) &&
+      splitsConsistent (Martian.InvocationSort.sortBinds bs)
 
 /-! ## the data the invocation stands for -/
 
